@@ -307,6 +307,57 @@ def _shard_flags(rec, arg):
                 _do(rec, prog, ins, flag, ["flag-matrix", f"program {name}"])
 
 
+# ---- deferred printing: a map / filter body that prints, forced only by the output flags ------------
+DEFER_SOURCES = [[["list", [[_n(1)], [_n(2)], [_n(3)]]]], [_n(3)], [["list", [[_n(4)], [_n(0)]]]], [_n(2), ["el", "ɾ"]]]
+DEFER_BODIES = [[["el", ":"], ["el", ","], ["el", "d"]], [["el", "…"]], [["el", ":"], ["el", "₴"]], [["el", "d"], ["el", "…"], ["el", "∷"]],
+                [["el", ":"], ["el", ","], ["el", ":"], ["el", ","]]]
+
+
+def check_deferred(src, kind, body, flag, ins):
+    """Nothing is printed before the end; the lazy result is first forced by the output flag.
+    The text must be what the eager reading of the structure semantics prints (the body's prints,
+    then no implicit output because something was printed), and it must not depend on whether
+    the list was forced just before the end."""
+    ast = src + [[kind, body]]
+    try:
+        it = refinterp.Interp(inputs=ins, flags=flag, max_steps=6000, effects_in_lambdas=True)
+        st_ = it.run_program(ast)
+        want = it.implicit_output(st_)
+    except (refinterp.Unmodelled, refinterp.RefError, refinterp.StepLimit):
+        return ("discard", "reference")
+    text = progs.render(ast)
+    out1, exc1, _ = harness.run_main(text, flag, [repr(x) for x in ins], budget=2_000_000)
+    out2, exc2, _ = harness.run_main(text + ":L_", flag, [repr(x) for x in ins], budget=2_000_000)
+    if exc1 is not None or exc2 is not None:
+        return ("discard", "raises")
+    desc = f"program {text!r} flag={flag!r} inputs={ins!r}"
+    if out1 != want:
+        return (f"C01:deferred-print:{kind}:flag-{flag}", f"{desc}: printed {out1!r}; the structure semantics prints {want!r} "
+                f"(the body's output, then no implicit output because something was printed)")
+    if out1 != out2:
+        return (f"C01:deferred-print-depends-on-forcing:{kind}:flag-{flag}", f"{desc}: printed {out1!r}, but {out2!r} when the list is forced just before the end (:L_)")
+    return None
+
+
+def _shard_deferred(rec, arg):
+    shard, nshards = arg
+    i = 0
+    for src in DEFER_SOURCES:
+        for kind in ("map", "flt"):
+            for body in DEFER_BODIES:
+                for flag in ("j", "s", "W", "jo", "so"):
+                    i += 1
+                    if i % nshards != shard:
+                        continue
+                    r = check_deferred(src, kind, body, flag, [])
+                    if r and r[0] == "discard":
+                        rec.discard("deferred-" + r[1])
+                        continue
+                    rec.case(key=(progs.render(src + [[kind, body]]), flag), nontrivial=True, cls=["deferred-printing", f"flag '{flag}'"])
+                    if r:
+                        rec.fail(r[0], {"deferred": {"src": src, "kind": kind, "body": body, "flag": flag}}, r[1])
+
+
 def _shard_calls(rec, arg):
     import itertools
 
@@ -334,11 +385,19 @@ def run(rec, tier, seed):
     rec.exhaustive.append(f"all bodies of length<={maxlen} over {len(BODY_ALPHABET)} stack/arithmetic elements in {len(CALL_FORMS)} call forms x 2 input/flag settings")
     campaign.parallel(rec, _shard_flags, [(s, ns) for s in range(ns)])
     rec.exhaustive.append(f"flag matrix: {len(FLAG_PROGRAMS)} programs x {len(FLAGS)} flags x 3 input lists")
+    campaign.parallel(rec, _shard_deferred, [(s, ns) for s in range(ns)])
     n = 120 if quick else 10000
     campaign.parallel(rec, _shard_hyp, [(seed * 1000 + i, n) for i in range(ns)])
 
 
 def replay(case):
+    if "deferred" in case:
+        d = case["deferred"]
+        if d.get("kind") not in ("map", "flt") or d.get("flag") not in ("j", "s", "W", "jo", "so"):
+            return None
+        progs.validate(d["src"] + [[d["kind"], d["body"]]])
+        r = check_deferred(d["src"], d["kind"], d["body"], d["flag"], [])
+        return None if (r and r[0] == "discard") else r
     ast = case["ast"]
     progs.validate(ast)
     ins = case.get("inputs", [])
